@@ -17,7 +17,7 @@ COND_MAX = 300.0
 
 def gen(tier, rng, shard, nshards):
     n_cases = SIZES[tier]
-    big = {"quick": {0: ("psd", 1001), 1: ("psd", 999), 2: ("gen", 999)},
+    big = {"quick": {0: ("psd", 1001), 1: ("psd", 999), 2: ("gen", 999), 3: ("gen", 1001)},
            "thorough": {0: ("psd", 1001), 1: ("psd", 999), 2: ("gen", 999), 3: ("gen", 1001), 4: ("psd", 1001), 5: ("gen", 999)}}[tier]
     if shard in big:
         kind, n = big[shard]
